@@ -79,8 +79,8 @@ def Store.setDst (s : Store) (v : Option Dir) : Store :=
 
 /-- directory-level operations issued by `rechunker()` -/
 inductive FsOp where
-  /-- `FileSaver.__init__`: rmtree(dest) if it exists, rmtree(dest_temp) if it exists,
-  makedirs(dest_temp), first metadata flush -/
+  /-- `FileSaver.__init__`: rmtree(dest_temp) if it exists, an existing dest is moved aside and
+  removed, makedirs(dest_temp), first metadata flush -/
   | initTemp (hdr : Header)
   /-- `save_file` of one chunk into the temp directory -/
   | writeChunk (fn : String) (rows : List Row)
